@@ -521,6 +521,21 @@ _APPS_CACHE = {}
 _DEFAULT_READY = [False]
 
 
+def _error_handler_for(app):
+    def on_error(err):
+        # a custom @app.error handler: looks at app.response (HTTPError.apply has just replaced status and headers)
+        # and renders the default page
+        fr = _tl.stack[-1]
+        fr['w_hdrs'] = {}
+        fr['w_line'] = None
+        _see(fr, 'error_handler')
+        return app.default_error_handler(err)
+    return on_error
+
+
+ERROR_CODES = (400, 403, 413)
+
+
 def _make_handler():
     def _handler(**kw):
         return _interp(_tl.stack[-1])
@@ -551,6 +566,7 @@ def _view(fr):
         rs = app.response
         out['hdrs'] = sorted([k, str(v)] for k, v in rs.headers.items())
         out['status'] = rs.status_code
+        out['status_line'] = rs.status_line if fr.get('w_line') is not None else None
         ck = rs._cookies
         out['cookies'] = sorted([m.key, m.value] for m in ck.values()) if ck else []
     except Exception as e:  # noqa
@@ -562,8 +578,13 @@ def _want(fr):
     q = [p.split('=', 1) for p in fr['qs'].split('&')] if fr['qs'] else []
     return dict(path=fr['path'], qs=fr['qs'], query=sorted(q), method=fr['method'], cookie_hdr=fr['cookie'],
                 app=fr['app'], route_own=True, url_args=[['x%d' % fr['app'], fr['path'][3:]]],
-                hdrs=sorted([k, v] for k, v in fr['w_hdrs'].items()), status=fr['w_status'],
+                hdrs=sorted([k, v] for k, v in fr['w_hdrs'].items()), status=fr['w_status'], status_line=fr.get('w_line'),
                 cookies=sorted([k, v] for k, v in fr['w_cookies'].items()))
+
+
+def _listed_codes():
+    import http.client
+    return http.client.responses
 
 
 def _see(fr, where):
@@ -587,8 +608,14 @@ def _interp(fr):
             app.response.headers[act[1]] = act[2]
             fr['w_hdrs'][act[1]] = act[2]
         elif kind == 'status':
+            # a number, or a string 'NNN Custom phrase'
             app.response.status = act[1]
-            fr['w_status'] = act[1]
+            if isinstance(act[1], str):
+                fr['w_status'], fr['w_line'] = int(act[1].split()[0]), act[1]
+            else:
+                fr['w_status'] = act[1]
+                # a code no table lists has the generated line; listed codes are left to the baseline
+                fr['w_line'] = ('%d Unknown' % act[1]) if act[1] not in _listed_codes() else None
         elif kind == 'cookie':
             app.response.set_cookie(act[1], act[2])
             fr['w_cookies'][act[1]] = act[2]
@@ -609,10 +636,12 @@ def _interp(fr):
             do_call(fr['apps'], inner, fr['log'], environ=sub.environ, path=fr['path'])
         elif kind == 'body_read':
             # reading the body of a malformed / oversize request raises the framework's pre-built 400 / 413
-            if fr.get('chunked_bad'):
+            if fr.get('chunked_bad') or fr.get('json_bad'):
                 fr['w_final'], fr['w_status'] = 'error', 400
             elif fr.get('too_big'):
                 fr['w_final'], fr['w_status'] = 'error', 413
+            if fr.get('json_bad'):
+                app.request.json
             data = app.request.body.read()
             fr['log'].append(dict(kind='form', tok=fr['tok'], got=dict(body=data.decode('latin1')),
                                   want=dict(body=fr['form'] or '')))
@@ -679,7 +708,7 @@ def do_call(apps, call, log, environ=None, path=None):
             env['wsgi.input'] = io.BytesIO(b'zz\r\n' + body + b'\r\n0\r\n\r\n')     # 'zz' is not a hex size
         elif form:
             env['CONTENT_LENGTH'] = str(len(body))
-            env['CONTENT_TYPE'] = 'application/x-www-form-urlencoded'
+            env['CONTENT_TYPE'] = 'application/json' if call.get('json_bad') else 'application/x-www-form-urlencoded'
         if call.get('cookie'):
             env['HTTP_COOKIE'] = call['cookie']
         if call.get('accept'):
@@ -689,6 +718,7 @@ def do_call(apps, call, log, environ=None, path=None):
     fr = dict(apps=apps, app=call['app'], tok=tok, path=path, qs=call.get('qs', ''),
               method=call.get('method', 'GET'), form=form, cookie=call.get('cookie'), script=call['script'],
               readonly=call.get('readonly'), chunked_bad=call.get('chunked_bad'), too_big=call.get('too_big'),
+              json_bad=call.get('json_bad'),
               log=log, w_hdrs={}, w_status=200, w_cookies={}, w_final='text', w_body='done:' + tok)
     if not hasattr(_tl, 'stack'):
         _tl.stack = []
@@ -712,6 +742,7 @@ def do_call(apps, call, log, environ=None, path=None):
     rec = dict(kind='response', tok=tok, status=st.get('s'), hdrs=hdrs, body=body_out.decode('latin1'),
                accept_json=(env.get('HTTP_ACCEPT') or '').startswith('application/json'),
                w_final=fr['w_final'], w_status=fr['w_status'], w_body=fr['w_body'], w_location=fr.get('w_location'),
+               w_line=fr.get('w_line') if fr['w_final'] in ('text', 'gen') else None,
                w_hdrs=sorted([k, v] for k, v in fr['w_hdrs'].items()),
                w_cookies=sorted([k, v] for k, v in fr['w_cookies'].items()))
     log.append(rec)
@@ -729,18 +760,22 @@ def make_apps(napps, use_default, max_body=None):
             if not _DEFAULT_READY[0]:
                 a._verif_handler = _make_handler()
                 a.route('/r/<x0>', method='ANY', callback=a._verif_handler)
+                for code in ERROR_CODES:
+                    a.error(code)(_error_handler_for(a))
                 _DEFAULT_READY[0] = True
         else:
             a = ombott.Ombott(dict(max_body_size=max_body)) if max_body is not None else ombott.Ombott()
             a._verif_handler = _make_handler()
             a.route('/r/<x%d>' % i, method='ANY', callback=a._verif_handler)
+            for code in ERROR_CODES:
+                a.error(code)(_error_handler_for(a))
         apps.append(a)
     return apps
 
 
 def arr_codes():
     # the handler proper; the recording helpers (_see, _view, _want) and do_call are harness, not handler
-    return [f.__code__ for f in (_handler, _interp, _gen_body)]      # _handler: one code object for all applications
+    return [f.__code__ for f in (_handler, _interp, _gen_body, _error_handler_for(None))]      # _handler: one code object for all applications
 
 
 def repo_trace_dir():
@@ -906,29 +941,85 @@ def _fingerprint(apps):
 
 
 
-def run_arrangement(case):
-    """-> dict(threads=[log per thread], solo=[log per thread], steps=[...], hang=bool)"""
+def _solo_once(napps, use_default, max_body, call):
+    apps = make_apps(napps, use_default, max_body)
+    _warm(apps)
+    log = []
+    s = Scheduler([lambda: do_call(apps, call, log)], 0, (), repo_trace_dir(), arr_codes())
+    s.run()
+    return log, s.steps[0]
+
+
+def baseline_server_main():
+    """runs in a process that has imported ombott (and this module) and NEVER serves a request itself: for every
+    line on stdin it forks a child that serves the one call alone, and prints the child's records.  State that is
+    process-wide in ombott (class-level errors_map responses, module-level tables) is therefore pristine in every
+    baseline, whatever the checking process has done before."""
+    import ombott  # noqa
+    for line in sys.stdin:
+        line = line.strip()
+        if not line:
+            continue
+        r, w = os.pipe()
+        pid = os.fork()
+        if pid == 0:
+            try:
+                os.close(r)
+                req = json.loads(line)
+                try:
+                    if req['op'] == 'solo':
+                        out = json.dumps(list(_solo_once(*req['args'])))
+                    else:
+                        out = json.dumps(_main_run(req['case'], req['steps']))
+                except BaseException as e:  # noqa
+                    out = json.dumps(dict(baseline_error=type(e).__name__, msg=str(e)[:300]))
+                with os.fdopen(w, 'w') as f:
+                    f.write(out)
+            finally:
+                os._exit(0)
+        os.close(w)
+        with os.fdopen(r) as f:
+            data = f.read()
+        os.waitpid(pid, 0)
+        sys.stdout.write((data or 'null') + '\n')
+        sys.stdout.flush()
+
+
+class _Baseline:
+    proc = None
+
+    @classmethod
+    def ask(cls, req):
+        import subprocess
+        import ombott
+        if cls.proc is None or cls.proc.poll() is not None:
+            repo = os.path.dirname(os.path.dirname(os.path.abspath(ombott.__file__)))
+            tools = os.path.dirname(os.path.dirname(os.path.abspath(__file__)))
+            code = ('import sys; sys.path[:0] = [%r, %r]; sys.dont_write_bytecode = True; '
+                    'from props import sched; sched.baseline_server_main()' % (tools, repo))
+            cls.proc = subprocess.Popen([sys.executable, '-c', code], stdin=subprocess.PIPE, stdout=subprocess.PIPE,
+                                        text=True, bufsize=1)
+        try:
+            cls.proc.stdin.write(json.dumps(req) + '\n')
+            cls.proc.stdin.flush()
+            line = cls.proc.stdout.readline()
+        except BaseException:
+            # (a timeout of the caller, a broken pipe) the answer may still arrive later: start over
+            cls.proc.kill()
+            cls.proc = None
+            raise
+        res = json.loads(line) if line.strip() else None
+        if res is None:
+            raise RuntimeError('the forked runner gave no answer')
+        if isinstance(res, dict) and 'baseline_error' in res:
+            raise RuntimeError('forked runner: %s %s' % (res['baseline_error'], res.get('msg')))
+        return res
+
+
+def _main_run(case, solo_steps_):
+    """the arrangement itself (all threads, under the scheduler) in THIS process"""
     napps, use_default, max_body = case['napps'], case.get('default', False), case.get('max_body')
     n = len(case['calls'])
-    # solo: every top-level call alone, on its own fresh set of applications
-    solo = []
-    solo_steps_ = []
-    for i, call in enumerate(case['calls']):
-        ck = json.dumps([napps, use_default, max_body, call], sort_keys=True)
-        if ck in _SOLO_CACHE:
-            lg, st = _SOLO_CACHE[ck]
-            solo.append(json.loads(lg))
-            solo_steps_.append(st)
-            continue
-        apps = make_apps(napps, use_default, max_body)
-        _warm(apps)
-        log = []
-        s = Scheduler([lambda a=apps, c=call, lg=log: do_call(a, c, lg)], 0, (), repo_trace_dir(), arr_codes())
-        s.run()
-        solo.append(log)
-        solo_steps_.append(s.steps[0])
-        if len(_SOLO_CACHE) < 4000:
-            _SOLO_CACHE[ck] = (json.dumps(log), s.steps[0])
     if case.get('reuse'):
         # (batches of schedules over one scenario) the applications are built once
         rk = (napps, use_default, max_body)
@@ -967,15 +1058,45 @@ def run_arrangement(case):
     finally:
         if record:
             recd.uninstall()
-    out = dict(threads=logs, solo=solo, steps=solo_steps_, sched_steps=list(s.steps), hang=s.hang,
+    out = dict(threads=logs, sched_steps=list(s.steps), hang=s.hang,
                thread_errors=[type(e).__name__ if e else None for e in errors], switches=switches)
     if record:
         after = _fingerprint(apps[:len(before)])
         out['shared_changed'] = sorted(k + '.' + f for k in before for f in before[k] if before[k][f] != after[k][f])
-        cmds, outs = recd.commands()
-        if len(_TRACES) < 20000:
+        out['trace_cmds'], out['trace_outs'] = recd.commands()
+    return out
+
+
+def run_arrangement(case):
+    """-> dict(threads=[log per thread], solo=[log per thread], steps=[...], hang=bool, ...).
+    Every part runs in its own forked child of a process that has only imported ombott: each call alone (the
+    baseline), and the arrangement itself — so nothing that is process-wide in ombott carries over from one case
+    to the next, and a failing case fails again when it is replayed on its own.  (Batches of schedules over one
+    scenario, `reuse`, run in the calling process.)"""
+    napps, use_default, max_body = case['napps'], case.get('default', False), case.get('max_body')
+    solo = []
+    solo_steps_ = []
+    for i, call in enumerate(case['calls']):
+        ck = json.dumps([napps, use_default, max_body, call], sort_keys=True)
+        if ck in _SOLO_CACHE:
+            lg, st = _SOLO_CACHE[ck]
+            solo.append(json.loads(lg))
+            solo_steps_.append(st)
+            continue
+        log, st = _Baseline.ask(dict(op='solo', args=[napps, use_default, max_body, call]))
+        solo.append(log)
+        solo_steps_.append(st)
+        if len(_SOLO_CACHE) < 8000:
+            _SOLO_CACHE[ck] = (json.dumps(log), st)
+    if case.get('reuse'):
+        out = _main_run(case, solo_steps_)
+    else:
+        out = _Baseline.ask(dict(op='main', case=case, steps=solo_steps_))
+        cmds = out.pop('trace_cmds', None)
+        if cmds is not None and len(_TRACES) < 20000:
             _TRACES[json.dumps(case, sort_keys=True)] = cmds
-        out['trace_outs'] = outs
+    out['solo'] = solo
+    out['steps'] = solo_steps_
     return out
 
 
@@ -1031,6 +1152,9 @@ def arrangement_failure(case, obs):
                 code = int((rec['status'] or '0').split()[0])
                 if code != rec['w_status']:
                     return 'thread %d: call %s answered %r, expected status %d' % (ti, tok, rec['status'], rec['w_status'])
+                if rec.get('w_line') is not None and rec['status'] != rec['w_line']:
+                    return ('thread %d: call %s answered with status line %r, its handler set %r'
+                            % (ti, tok, rec['status'], rec['w_line']))
                 if rec['w_final'] in ('text', 'gen'):
                     if rec['body'] != rec['w_body']:
                         return 'thread %d: call %s body %r, expected %r' % (ti, tok, rec['body'][:80], rec['w_body'])
